@@ -1,24 +1,87 @@
 """C32 helpers: render the cases published by spec/ExcSpec.tla (and ExcSpecCpp.tla) as Cython
 modules, compute the expected observation strings, and the documented-rule oracle (P)."""
 import json
+import struct
 
 CT = {"int": "int", "double": "double", "ptr": "int*", "struct": "S", "void": "void", "object": "object"}
+BASE_RT = tuple(CT)
+# typed numeric layer of the spec (IntInfo / WTypes): C name, bits, signed
+INTINFO = {"schar": ("signed char", 8, True), "uchar": ("unsigned char", 8, False),
+           "short": ("short", 16, True), "ushort": ("unsigned short", 16, False),
+           "int": ("int", 32, True), "uint": ("unsigned int", 32, False),
+           "long": ("long", 64, True), "ulong": ("unsigned long", 64, False),
+           "llong": ("long long", 64, True), "ullong": ("unsigned long long", 64, False),
+           "ssize_t": ("Py_ssize_t", 64, True), "size_t": ("size_t", 64, False)}
+WBOUNDS = {"uchar": ["255"], "ushort": ["65535"], "schar": ["-128", "127"], "short": ["-32768", "32767"]}
+for _t, (_cn, _b, _s) in INTINFO.items():
+    CT.setdefault(_t, _cn)
+CT["float"] = "float"
+FLT = ("double", "float")
+
+
+def is_int(rt):
+    return rt in INTINFO
+
+
+def decode(rt, v):
+    """value tag published by the spec -> the Python-level value (int family: the representative -> the mathematical value)"""
+    if is_int(rt):
+        n = int(v)
+        _, bits, signed = INTINFO[rt]
+        if not signed and n < 0:
+            n += 1 << bits
+        return n
+    return v
+
+
+def pconv(rt, lit):
+    """P: the value a literal has as a value of the C type rt (ISO C 6.3.1.3 / 6.3.1.5), computed with Python integers and
+    IEEE single precision -- independent of the TLA+ operators Rep / ConvT"""
+    if is_int(rt):
+        _, bits, signed = INTINFO[rt]
+        n = int(lit) % (1 << bits)
+        if signed and n >= 1 << (bits - 1):
+            n -= 1 << bits
+        return n
+    if rt == "float" and lit not in ("nan",):
+        f = struct.unpack("f", struct.pack("f", float(lit)))[0]
+        return lit if f == float(lit) else lit + "f"
+    return lit
+
+
+def vrepr(rt, v):
+    """repr() of the Python-level value the def wrapper returns for the (converted) value tag v of type rt"""
+    if is_int(rt):
+        return str(decode(rt, v))
+    if v.endswith("f") and rt == "float":
+        return repr(struct.unpack("f", struct.pack("f", float(v[:-1])))[0])
+    return VREPR[v]
+
 # body tags in the fixed order that defines the selector argument k
 BODIES = {"int": ["raise", "fall", "-1", "0", "5", "7"],
           "double": ["raise", "fall", "-1.0", "0.0", "2.5", "nan"],
           "ptr": ["raise", "fall", "NULL", "P"],
           "struct": ["raise", "fall", "Z", "S"],
           "void": ["raise", "fall", "void"],
-          "object": ["raise", "fall", "None", "obj"]}
+          "object": ["raise", "fall", "None", "obj"],
+          "float": ["raise", "fall", "-1.0", "0.0", "2.5", "nan", "0.1"]}
+for _t in INTINFO:
+    BODIES.setdefault(_t, ["raise", "fall", "-1", "0", "5"] + WBOUNDS.get(_t, []))
 RET = {"-1": "return -1", "0": "return 0", "5": "return 5", "7": "return 7",
        "-1.0": "return -1.0", "0.0": "return 0.0", "2.5": "return 2.5", "nan": "return NAN",
        "NULL": "return NULL", "P": "return &CELL", "Z": "return mkS(0, 0)", "S": "return mkS(3, 4)",
-       "void": "return", "None": "return None", "obj": "return OBJ"}
-SVTXT = {"-1": "-1", "0": "0", "5": "5", "-1.0": "-1.0", "0.0": "0.0", "nan": "NAN", "NULL": "NULL"}
+       "void": "return", "None": "return None", "obj": "return OBJ", "0.1": "return 0.1"}
+SVTXT = {"-1": "-1", "0": "0", "5": "5", "-1.0": "-1.0", "0.0": "0.0", "nan": "NAN", "NULL": "NULL", "0.1": "0.1"}
+for _bs in WBOUNDS.values():
+    for _b in _bs:
+        RET[_b] = "return " + _b
+        SVTXT[_b] = _b
 # repr() of the Python-level value the def wrapper returns for a value tag
 VREPR = {"-1": "-1", "0": "0", "5": "5", "7": "7", "-1.0": "-1.0", "0.0": "0.0", "2.5": "2.5", "nan": "nan",
          "NULL": "'NULL'", "P": "'P'", "Z": "(0, 0)", "S": "(3, 4)", "void": "'void'", "None": "None", "obj": "('obj',)"}
-ZERO = {"int": "0", "double": "0.0", "ptr": "NULL", "struct": "any", "void": "void", "object": "None"}
+ZERO = {"int": "0", "double": "0.0", "ptr": "NULL", "struct": "any", "void": "void", "object": "None", "float": "0.0"}
+for _t in INTINFO:
+    ZERO.setdefault(_t, "0")
 
 HEADER = '''# cython: language_level=3
 cimport cython
@@ -114,7 +177,9 @@ def clause(spec, sv):
 
 
 def sname(spec, sv):
-    t = {"-1": "m1", "0": "z", "5": "p5", "-1.0": "m1", "0.0": "z", "nan": "nan", "NULL": "null", "none": ""}[sv]
+    t = {"-1": "m1", "0": "z", "5": "p5", "-1.0": "m1", "0.0": "z", "nan": "nan", "NULL": "null", "none": "", "0.1": "p01"}.get(sv)
+    if t is None:
+        t = ("m" + sv[1:]) if sv.startswith("-") else ("p" + sv)      # boundary literals of the narrow integer types
     return spec.replace("_", "") + t
 
 
@@ -144,7 +209,7 @@ def render_func(kind, spec, rt, sv, nogil, indent=""):
 
 
 def conv(rt, r):
-    return {"int": r, "double": r, "ptr": "ptag(%s)" % r, "struct": "(%s.a, %s.b)" % (r, r), "void": "'void'", "object": r}[rt]
+    return {"ptr": "ptag(%s)" % r, "struct": "(%s.a, %s.b)" % (r, r), "void": "'void'"}.get(rt, r)
 
 
 def callexpr(kind, name):
@@ -275,14 +340,14 @@ def doc_rule(c):
     """-> (kind, value tag, hooks) with kind in val / exc / anyexc"""
     rt, spec = c["rt"], c["spec"]
     raised = c["body"] == "raise"
-    val = ZERO[rt] if c["body"] == "fall" else c["body"]
+    val = pconv(rt, ZERO[rt] if c["body"] == "fall" else c["body"])     # the return statement converts to the return type
     if rt == "object":                       # always NULL + exception, clause is ignored
         return ("exc", "KeyError", 0) if raised else ("val", val, 0)
     if spec == "noexc":                      # "will print a warning message but not allow the exception to propagate"
-        return ("val", ZERO[rt], 1) if raised else ("val", val, 0)
+        return ("val", pconv(rt, ZERO[rt]), 1) if raised else ("val", val, 0)
     if raised:                               # except v / except? v / except * / implicit: propagates
         return ("exc", "KeyError", 0)
-    if spec == "exc_v" and val == c["sv"]:   # "you should never explicitly or implicitly return that value"
+    if spec == "exc_v" and val == pconv(rt, c["sv"]):   # "you should never explicitly or implicitly return that value"
         return ("anyexc", "none", 0)
     return ("val", val, 0)                   # except? / except * / implicit: a returned sentinel is a value
 
@@ -296,9 +361,9 @@ def expected_obs(c):
         return ["e", None, hooks]
     v = c["v"]
     if c["ctx"] == "py":
-        r = None if v == "any" else ("None" if v == "void" else VREPR[v])
+        r = None if v == "any" else ("None" if v == "void" else vrepr(c["rt"], v))
         return ["v", r, None, hooks]
-    return ["v", None if v == "any" else VREPR[v], False, hooks]
+    return ["v", None if v == "any" else vrepr(c["rt"], v), False, hooks]
 
 
 def obs_matches(want, got):
